@@ -99,10 +99,10 @@ def gen_plan(prop, run_seed, tier):
         ops = ["reveal"] * 6 + ["reveal_cli"] * 2 + ["mask", "mask", "unmask", "save_load", "save_load",
                                                       "set_observed", "set_observed", "set_observed", "construct", "construct"]
     elif prop == "C02":
-        spec = gen.gen_screen(w, alphabet=w.choice(["tricky", "tricky", "ascii"]))
+        spec = gen.gen_screen(w, alphabet=w.choice(["tricky", "tricky", "ascii"]), observed_rate=w.choice([0.3, 0.5, 0.5, 0.7, 0.0, 1.0]))
         _sprinkle_special_obs(w, spec)
         plan["screen"] = spec
-        plan["prepare"] = dict(fraction=w.choice([0.2, 0.5, 1.0]), seed=w.randrange(2**31)) if w.random() < 0.6 else None
+        plan["prepare"] = dict(fraction=w.choice([0.2, 0.5, 0.5, 0.8, 1.0]), seed=w.randrange(2**31)) if w.random() < 0.6 else None
         n_steps = s.randint(2, 10 if tier == "quick" else 30)
         ops = ["save_load"] * 6 + ["space_save_load"] * 2 + ["reveal", "mask", "unmask", "split", "set_observed"]
     else:  # C01
@@ -664,6 +664,14 @@ def op_save_load(ctx, st, t):
             return
         if ctx.prop == "C02":
             _c02_compare(ctx, cur, new, c)
+            if c == 0:
+                # saving must not change the object that was saved: a second file of the same object reloads equal
+                try:
+                    again = Screen.load_h5(_save(ctx, cur, "again.h5"))
+                    if ref.logical_screen_digest(again) != ref.logical_screen_digest(new):
+                        ctx.violation("C02.second-save-differs", "Screen.save_h5", "saving the same screen object a second time gives a file that reloads differently")
+                except Exception as e:
+                    ctx.violation("C02.save-load-raised", f"second-save:{type(e).__name__}", f"saving the same object again raised {e!r}")
             d = ref.logical_screen_digest(new)
             if d_prev is not None and d != d_prev:
                 ctx.violation("C02.not-fixed-point", "Screen", "second save/load cycle changed the logical digest")
